@@ -71,6 +71,7 @@ Example C12_bytes_example :
   contains_w (enc (VArr [VNum (NInt 7); VStr [97]])) (enc (VNum (NFloat 4619567317775286272))) = Ok true /\
   contains_w (enc (VArr [VArr [VNum (NInt 7)]])) (enc (VNum (NInt 7))) = Ok false.
 Proof. vm_compute. repeat split; reflexivity. Qed.
+Print Assumptions C12_bytes_example.
 
 (* ---- the specification itself, written from the property text (ContainSpec.v): an inductive relation with one rule
    per sentence -- equal scalars; object/object when every member of b is contained in the member of a under the same
@@ -123,3 +124,4 @@ Theorem C12_fuel_is_never_decisive :
   (forall k bs i len j, (length bs < k)%nat -> Walk.rd_words k bs i len j = Walk.rd_words (S (length bs)) bs i len j).
 Proof. split; [exact FuelIndep.contains_jsonb_w_any_fuel|split; [exact (@FuelIndep.arr_fold_any_fuel)|exact FuelIndep.rd_words_any_fuel]]. Qed.
 Print Assumptions C12_fuel_is_never_decisive.
+Print Assumptions C12_declarative_example.
